@@ -8,10 +8,16 @@ u16 vf_u16(void){ u16 vf_tape_v16 = nondet_u16(); return vf_tape_v16; }
 u32 vf_u32(void){ u32 vf_tape_v32 = nondet_u32(); return vf_tape_v32; }
 u64 vf_u64(void){ u64 vf_tape_v64 = nondet_u64(); return vf_tape_v64; }
 void vf_assume(u1 c){ __CPROVER_assume(c); }
-void vf_assert(u1 c, u32 id){ __CPROVER_assert(c, "harness assertion (dynamic id)"); __CPROVER_assume(c); }
-/* assert-then-assume: a path is followed only up to its FIRST failing harness assertion (same verdicts; keeps the state after a failure -
-   wild pointers, broken invariants - out of the formula, which is what made queries on broken code time out instead of reporting) */
-#define VF_ASSERT_AT(c,id) do { __CPROVER_assert(c, "harness assertion " #id); __CPROVER_assume(c); } while (0)
+#ifdef VF_ASSUME_AFTER_ASSERT   /* second attempt after a timeout (engine.py) */
+#define VF_AFTER_ASSERT(c) __CPROVER_assume(c)
+#else
+#define VF_AFTER_ASSERT(c) ((void)0)
+#endif
+void vf_assert(u1 c, u32 id){ __CPROVER_assert(c, "harness assertion (dynamic id)"); VF_AFTER_ASSERT(c); }
+/* assert-then-assume (only with -DVF_ASSUME_AFTER_ASSERT, the engine's retry after a timeout): a path is followed only up to its FIRST failing
+   harness assertion (same verdicts; keeps the state after a failure - wild pointers, broken invariants - out of the formula, which is what made
+   queries on broken code time out instead of reporting).  Not the default: it made one C14 query go from 1 s to > 300 s. */
+#define VF_ASSERT_AT(c,id) do { __CPROVER_assert(c, "harness assertion " #id); VF_AFTER_ASSERT(c); } while (0)
 #define VF_WITNESS() __CPROVER_assert(0, "reachability witness")
 void vf_witness(void){ __CPROVER_assert(0, "reachability witness"); }
 void vf_obs(u64 v){ }
